@@ -75,6 +75,8 @@ def plan(tier, seed):
     for s in range(2 if tier == 'quick' else 8):
         specs.append({'kind': 'bytes', 'bshard': s, 'docs': 6 if tier == 'quick' else 20})
     specs.append({'kind': 'corpus', 'mut': 4 if tier == 'quick' else 30})
+    for s in range(6):
+        specs.append({'kind': 'typed', 'tshard': s, 'tshards': 6})
     for limit in (5, 50, 200, 1000):
         for lazy in (False, True):
             specs.append({'kind': 'depth', 'limit': limit, 'lazy': lazy, 'no_cov': limit > 200})
@@ -138,6 +140,7 @@ def drive(sent, xmlschema, schema, source_factory, case, wellformed_hint=None):
     sent.call('iter_errors', lambda: list(schema.iter_errors(source_factory())), case, lax=True, wellformed=wellformed)
     sent.call('decode_strict', lambda: schema.decode(source_factory()), case, wellformed=wellformed)
     sent.call('decode_lax', lambda: schema.decode(source_factory(), validation='lax'), case, lax=True, wellformed=wellformed)
+    sent.call('decode_skip', lambda: schema.decode(source_factory(), validation='skip'), case, lax=True, wellformed=wellformed)
 
 
 # ---------------------------------------------------------------------------------------------
@@ -236,6 +239,70 @@ def run_fuzz(spec, res):
 OVERFLOWING = [('huge-year', '99999999999999999999'), ('huge-date', '99999999999999999999-01-01'),
                ('huge-duration', 'P99999999999999999999Y'), ('huge-exponent', '1e999999999'),
                ('huge-datetime', '-99999999999999999999-12-31T00:00:00Z'), ('huge-integer', '9' * 400)]
+
+
+TYPED_TYPES = ['date', 'dateTime', 'time', 'gYear', 'gYearMonth', 'gMonthDay', 'duration', 'double', 'float', 'decimal',
+               'integer', 'int', 'unsignedByte', 'boolean', 'hexBinary', 'anyURI', 'QName']
+TYPED_VALID = {'date': '2001-02-03', 'dateTime': '2001-02-03T04:05:06Z', 'time': '04:05:06', 'gYear': '2001',
+               'gYearMonth': '2001-02', 'gMonthDay': '--02-03', 'duration': 'P1Y', 'double': '1.5', 'float': '1.5',
+               'decimal': '1.5', 'integer': '7', 'int': '7', 'unsignedByte': '7', 'boolean': 'true', 'hexBinary': '0A',
+               'anyURI': 'urn:a', 'QName': 'xs:a'}
+TYPED_NS = 'urn:vk:typed'
+
+
+def typed_xsd():
+    """Every role in which a typed value is computed, for every built-in family: plain, fixed and defaulted elements and
+    attributes, identity fields, list items and union members."""
+    out = [f'<xs:schema xmlns:xs="{D.XS}" xmlns:t="{TYPED_NS}" targetNamespace="{TYPED_NS}" elementFormDefault="qualified">',
+           '<xs:element name="root"><xs:complexType><xs:sequence>']
+    for t in TYPED_TYPES:
+        v = TYPED_VALID[t]
+        out.append(f'<xs:element name="e_{t}" type="xs:{t}" minOccurs="0" maxOccurs="unbounded"/>')
+        out.append(f'<xs:element name="f_{t}" type="xs:{t}" fixed="{v}" minOccurs="0"/>')
+        out.append(f'<xs:element name="d_{t}" type="xs:{t}" default="{v}" minOccurs="0"/>')
+        out.append(f'<xs:element name="l_{t}" minOccurs="0"><xs:simpleType><xs:list itemType="xs:{t}"/></xs:simpleType></xs:element>')
+        out.append(f'<xs:element name="u_{t}" minOccurs="0"><xs:simpleType><xs:union memberTypes="xs:{t} xs:boolean"/></xs:simpleType></xs:element>')
+        out.append(f'<xs:element name="c_{t}" minOccurs="0"><xs:complexType><xs:simpleContent><xs:extension base="xs:{t}">'
+                   f'<xs:attribute name="a" type="xs:{t}"/><xs:attribute name="b" type="xs:{t}" fixed="{v}"/>'
+                   f'<xs:attribute name="c" type="xs:{t}" default="{v}"/></xs:extension></xs:simpleContent></xs:complexType></xs:element>')
+    out.append('</xs:sequence></xs:complexType>')
+    for t in TYPED_TYPES:
+        out.append(f'<xs:unique name="un_{t}"><xs:selector xpath="t:e_{t}"/><xs:field xpath="."/></xs:unique>')
+        out.append(f'<xs:unique name="ua_{t}"><xs:selector xpath="t:c_{t}"/><xs:field xpath="@a"/></xs:unique>')
+    out.append('</xs:element></xs:schema>')
+    return ''.join(out)
+
+
+def run_typed(spec, res):
+    """Out-of-range and hostile lexical forms at every role of every built-in family (one position at a time)."""
+    xmlschema = env.activate_repo()
+    sent = Sentinel(xmlschema, res)
+    xsd = typed_xsd()
+    values = OVERFLOWING + [h for h in HOSTILE if h[0] in ('empty', 'blank', 'nan', 'qname_unknown', 'year0', 'tz_big', 'duration_empty')] + [('valid', None)]
+    for version, cls in (('1.0', xmlschema.XMLSchema10), ('1.1', xmlschema.XMLSchema11)):
+        schema = cls(xsd)
+        for t in TYPED_TYPES[spec['tshard']::spec['tshards']]:
+            for role in ('e', 'e2', 'f', 'd', 'l', 'u', 'c', 'c@a', 'c@b', 'c@c'):
+                for vclass, value in values:
+                    v = TYPED_VALID[t] if value is None else value
+                    q = xml_escape(v)
+                    if role == 'e2':
+                        body = f'<t:e_{t}>{TYPED_VALID[t]}</t:e_{t}><t:e_{t}>{q}</t:e_{t}>'
+                    elif '@' in role:
+                        body = f'<t:c_{t} {role[-1]}="{q}">{TYPED_VALID[t]}</t:c_{t}>'
+                    elif role == 'l':
+                        body = f'<t:l_{t}>{TYPED_VALID[t]} {q}</t:l_{t}>'
+                    else:
+                        body = f'<t:{role}_{t}>{q}</t:{role}_{t}>'
+                    text = f'<t:root xmlns:t="{TYPED_NS}" xmlns:xs="{D.XS}">{body}</t:root>'
+                    case = {'typed': True, 'version': version, 'type': t, 'role': role, 'value': vclass, 'doc': text[:3000]}
+                    res.nontrivial.add(env.h8(('typed', t, role, vclass)))
+                    res.count('typed_roles')
+                    drive(sent, xmlschema, schema, lambda: text, case)
+
+
+def xml_escape(v):
+    return v.replace('&', '&amp;').replace('<', '&lt;').replace('"', '&quot;')
 
 
 class Truncating(io.RawIOBase):
@@ -471,7 +538,7 @@ def run_elements(spec, res):
 
 
 def run_shard(spec, res):
-    {'fuzz': run_fuzz, 'bytes': run_bytes, 'corpus': run_corpus, 'depth': run_depth, 'elements': run_elements}[spec['kind']](spec, res)
+    {'fuzz': run_fuzz, 'typed': run_typed, 'bytes': run_bytes, 'corpus': run_corpus, 'depth': run_depth, 'elements': run_elements}[spec['kind']](spec, res)
 
 
 def finalize(res, tier):
@@ -502,6 +569,9 @@ def replay(case):
                 blob = bytes.fromhex(case['hex'])
                 drive(sent, xmlschema, C.schema_for(entry), lambda: blob, case)
                 break
+    elif case.get('typed'):
+        cls = xmlschema.XMLSchema11 if case.get('version') == '1.1' else xmlschema.XMLSchema10
+        drive(sent, xmlschema, cls(typed_xsd()), lambda: case['doc'], case)
     else:
         cls = xmlschema.XMLSchema11 if case.get('version') == '1.1' else xmlschema.XMLSchema10
         schema = cls(ALL_FAMILIES[case['family']])
